@@ -1,12 +1,13 @@
 /* UNIT
 {
- "id": "QBE.bitfield.store",
+ "id": "QBE.bitfield.store.top",
  "file": "qbe.c", "function": "funcstore", "also_functions": ["funcbits", "qbetype"],
  "properties": {"C01": "contract", "C10": "contract", "C19": "safety"},
- "mode": "dfcc", "enforce": "funcstore/funcstore_contract", "post_macro": "POST_STORE",
+ "mode": "dfcc", "enforce": "funcstore/funcstore_contract", "post_macro": "POST_TOP",
  "replace_calls": {"funcinst": "rec_funcinst", "funccopy": "rec_unreachable_funccopy"},
  "kind": "proof",
- "variants": {"sz1": ["-DV_SZ=1"], "sz2": ["-DV_SZ=2"], "sz4": ["-DV_SZ=4"], "sz8": ["-DV_SZ=8"]},
+ "cflags": ["-DBF_TOP_ONLY"],
+ "variants": {"sz1": ["-DV_SZ=1"], "sz2": ["-DV_SZ=2"]},
  "canary_variant": "sz2",
  "link_repo": ["type.c"],
  "timeout": 200,
